@@ -366,7 +366,13 @@ class CompositeConfigParser(ConfigFileParser):
 
     def parse(self, stream:TextIO) -> Dict[str, Any]:
         errors = []
-        for p in self.parsers:
+        parsers = self.parsers
+        name = getattr(stream, 'name', None)
+        if isinstance(name, str) and name.lower().endswith(('.ini', '.cfg')):
+            # A file that is named like an INI file is read as one first, 
+            # even when its text happens to be valid TOML as well (where 'x = 1.10' is a number).
+            parsers = sorted(parsers, key=lambda p: not isinstance(p, IniConfigParser))
+        for p in parsers:
             try:
                 return p.parse(stream) # type: ignore[no-any-return]
             except Exception as e:
